@@ -515,3 +515,21 @@ Proof.
   revert acc. induction l as [|d r IH]; intros acc; cbn [fold_stop sum_stop]; [lia|].
   destruct (stop d); [reflexivity|]. rewrite IH. lia.
 Qed.
+
+Lemma nth_firstn_lt (l : list Z) i k : (i < k)%nat -> nth i (firstn k l) 0 = nth i l 0.
+Proof.
+  revert i k. induction l as [|x l IH]; intros i k Hik; [destruct i, k; reflexivity|].
+  destruct k; [lia|]. destruct i; [reflexivity|]. cbn [firstn nth]. apply IH. lia.
+Qed.
+
+Lemma nth_skipn_add (l : list Z) m i : nth i (skipn m l) 0 = nth (m + i) l 0.
+Proof.
+  revert l. induction m as [|m IH]; intros l; [reflexivity|].
+  destruct l as [|x l]; [destruct i; reflexivity|]. cbn [skipn Nat.add nth]. apply IH.
+Qed.
+
+Lemma list_set_app_l l t k v : (k < length l)%nat -> list_set (l ++ t) k v = list_set l k v ++ t.
+Proof.
+  revert k. induction l as [|x l IH]; intros k Hk; cbn [length] in Hk; [lia|].
+  destruct k; cbn [app list_set]; [reflexivity|]. rewrite IH by lia. reflexivity.
+Qed.
